@@ -17,6 +17,7 @@ import (
 	"sort"
 	"strings"
 	"sync"
+	"sync/atomic"
 	"testing"
 	"testing/synctest"
 	"time"
@@ -57,10 +58,11 @@ type RunConfig struct {
 	TxSeqStart  uint32         `json:"tx_seq_start"`
 	KernLatency int            `json:"kern_latency_ms"` // per data-plane request, 0 = none
 	Faults      []string       `json:"faults,omitempty"`
-	Oracles     []string       `json:"oracles,omitempty"` // property ids whose oracles are on
-	FinalStop   bool           `json:"final_stop"`        // the action list ends with an explicit stop
+	Oracles     []string       `json:"oracles,omitempty"`      // property ids whose oracles are on
+	FinalStop   bool           `json:"final_stop"`             // the action list ends with an explicit stop
 	PSFirst     int            `json:"ps_first_pct,omitempty"` // when both netlink clients wait: chance (percent) that the periodic one is served first (0 = 50)
-	NoPeek      bool           `json:"no_peek,omitempty"` // never read go-upf's internal state (race-detector runs)
+	FQDNMask    int            `json:"fqdn_mask,omitempty"`    // bit i: SMF i's Node ID is an FQDN, resolved through the simulator
+	NoPeek      bool           `json:"no_peek,omitempty"`      // never read go-upf's internal state (race-detector runs)
 }
 
 // Violation is what a run reports.
@@ -97,12 +99,16 @@ type Sim struct {
 	res *RunResult
 
 	t0     time.Time
-	stepNo int
+	stepNo int          // root goroutine only
+	stepA  atomic.Int64 // the same, for go-upf's goroutines (sockets, kernel, log)
 	kick   chan struct{}
 
-	kern *Kernel
-	n4   *Sock
-	gtpu *Sock
+	detWG   sync.WaitGroup    // detached producers (action "detach")
+	detBusy map[int64]bool    // odd instants already taken by them
+	names   map[string]net.IP // the simulated resolver's zone
+	kern    *Kernel
+	n4      *Sock
+	gtpu    *Sock
 
 	wg       sync.WaitGroup
 	drv      forwarder.Driver
@@ -131,15 +137,15 @@ type Sim struct {
 	ansQ  []*UpReq       // UPF-initiated requests not yet answered by an SMF
 	actNo int
 
-	hbSeq uint32
-	armed []KRepItem
-	armedAns *Action
-	armedStop int
+	hbSeq               uint32
+	armed               []KRepItem
+	armedAns            *Action
+	armedStop           int
 	closeDone, waitDone chan struct{}
-	tearing bool
-	c11carriers map[string]bool
-	statesSeen map[string]bool
-	faultHit   map[uint64]bool
+	tearing             bool
+	c11carriers         map[string]bool
+	statesSeen          map[string]bool
+	faultHit            map[uint64]bool
 }
 
 func (s *Sim) since() time.Duration { return time.Since(s.t0) }
@@ -180,7 +186,7 @@ func (s *Sim) logEvent(f string, a ...any) {
 	if len(line) > 400 {
 		line = line[:400] + "…"
 	}
-	s.trace = append(s.trace, fmt.Sprintf("[%d %v] %s", s.stepNo, s.since(), line))
+	s.trace = append(s.trace, fmt.Sprintf("[%d %v] %s", s.curStep(), s.since(), line))
 	if !s.verbose && len(s.trace) > 400 {
 		s.trace = s.trace[len(s.trace)-200:]
 	}
@@ -266,6 +272,16 @@ func (s *Sim) harnessFail(f string, a ...any) {
 }
 
 // perm is the seed-derived map iteration order (rule R3).
+func (s *Sim) curStep() int { return int(s.stepA.Load()) }
+
+// nodeDst is where the UPF must send requests for a peer known by this Node ID.
+func (s *Sim) nodeDst(node string) string {
+	if ip, ok := s.names[node]; ok {
+		return ip.String() + ":8805"
+	}
+	return node + ":8805"
+}
+
 func (s *Sim) perm(site int, n int) []int {
 	p := make([]int, n)
 	for i := range p {
@@ -335,9 +351,12 @@ func (s *Sim) pendingReports() int {
 
 // ---- time and quiescence -------------------------------------------------------------
 
-// bump moves the fake clock by one nanosecond so that every quiescent interval has its
-// own nanosecond residue (all configured durations are whole milliseconds).
-func (s *Sim) bump() { time.Sleep(time.Nanosecond) }
+// bump moves the fake clock by two nanoseconds so that every quiescent interval has its
+// own residue (all configured durations are whole milliseconds). Everything the lock-step
+// scheduler and go-upf's timers do therefore happens at EVEN nanoseconds; detached
+// producers (action "detach") wake at odd ones, alone, so that no two goroutines the
+// simulator does not order ever become runnable in the same instant.
+func (s *Sim) bump() { time.Sleep(2 * time.Nanosecond) }
 
 // schedPick chooses among the sockets with a request pending (names sorted: main, ps).
 func (s *Sim) schedPick(n int) int {
@@ -397,7 +416,7 @@ func (s *Sim) settle() {
 			}
 			if s.cfg.KernLatency > 0 && !s.tearing && guard <= 120 && (r.Op == "add-create" || r.Op == "add-update" || r.Op == "del" || r.Op == "multi" || r.Op == "report" || r.Op == "get") {
 				s.fired("dp.latency", 1)
-				time.Sleep(time.Duration(s.cfg.KernLatency)*time.Millisecond + time.Nanosecond)
+				time.Sleep(time.Duration(s.cfg.KernLatency)*time.Millisecond + 2*time.Nanosecond)
 				synctest.Wait()
 			}
 			s.kern.handle(r)
@@ -427,7 +446,20 @@ func (s *Sim) forwardReport(i int) {
 	s.bump()
 	s.logEvent("report fwd seid=%#x n=%d", sr.SEID, len(sr.Reports))
 	s.model.noteReportForwarded(sr)
-	s.srv.NotifySessReport(sr)
+	// the producer is a goroutine of its own, as in production (netlink mux, periodic
+	// server): whatever it touches besides the report queue is unordered with the event
+	// loop's accesses, which is what the race detector must be able to see
+	done := make(chan struct{})
+	go func() {
+		s.srv.NotifySessReport(sr)
+		close(done)
+	}()
+	synctest.Wait()
+	select {
+	case <-done:
+	default:
+		s.probe("report.producer.blocked", 1)
+	}
 }
 
 // advance moves the fake clock by d, waking up whenever go-upf needs the kernel.
@@ -455,7 +487,9 @@ func (s *Sim) advance(d time.Duration) {
 
 type fatalHook struct{ s *Sim }
 
-func (h fatalHook) Levels() []logrus.Level { return []logrus.Level{logrus.FatalLevel, logrus.PanicLevel} }
+func (h fatalHook) Levels() []logrus.Level {
+	return []logrus.Level{logrus.FatalLevel, logrus.PanicLevel}
+}
 func (h fatalHook) Fire(e *logrus.Entry) error {
 	h.s.emu.Lock()
 	h.s.exitMsgs = append(h.s.exitMsgs, e.Message)
@@ -482,6 +516,14 @@ func (s *Sim) boot() {
 	simhook.SetPerm(s.perm)
 	simhook.SetKnobs(s.cfg.Knobs)
 	simhook.SetChoose(s.choose)
+	simhook.SetResolve(func(host string) (net.IP, error) {
+		s.probe("resolver.lookup", 1)
+		if ip, ok := s.names[host]; ok {
+			return ip, nil
+		}
+		s.probe("resolver.nxdomain", 1)
+		return nil, &net.DNSError{Err: "no such host", Name: host, IsNotFound: true}
+	})
 	simhook.SetListen(func(network string, laddr *net.UDPAddr) (simhook.PacketBackend, error) {
 		switch laddr.Port {
 		case factory.UpfPfcpDefaultPort:
@@ -768,6 +810,15 @@ func Run(t *testing.T, cfg RunConfig, actions []Action, verbose bool) *RunResult
 					// goroutines left behind: reported by the run itself where it matters
 					if res.Violation == nil && res.Harness == "" {
 						res.Harness = "bubble ended with blocked goroutines: " + msg
+						if verbose {
+							buf := make([]byte, 4<<20)
+							n := runtime.Stack(buf, true)
+							for _, g := range strings.Split(string(buf[:n]), "\n\n") {
+								if strings.Contains(strings.SplitN(g, "\n", 2)[0], "synctest bubble") {
+									fmt.Fprintln(os.Stderr, g+"\n")
+								}
+							}
+						}
 					}
 					return
 				}
@@ -778,7 +829,7 @@ func Run(t *testing.T, cfg RunConfig, actions []Action, verbose bool) *RunResult
 			s := &Sim{
 				t: t, cfg: cfg, res: res, t0: time.Now(), kick: make(chan struct{}, 1),
 				firedM: res.Fired, probeM: res.Probes, permCnt: map[int]uint64{}, verbose: verbose,
-				dgs: map[int]*Dgram{},
+				dgs: map[int]*Dgram{}, names: map[string]net.IP{}, detBusy: map[int64]bool{},
 			}
 			s.kern = newKernel(s)
 			s.n4 = newSock(s, "n4")
@@ -857,4 +908,6 @@ func (s *Sim) teardown() {
 		s.stop2()
 	}
 	s.checkMidTurnStop()
+	// detached producers still asleep hand their notification to a stopped server
+	s.detWG.Wait()
 }
